@@ -89,3 +89,17 @@ Proof.
   induction l as [|x r IH]; intros H; simpl; [reflexivity|].
   rewrite (H x (or_introl eq_refl)), IH; [reflexivity|]. intros y Hy. apply H. right. exact Hy.
 Qed.
+
+Lemma filter_filter_comm {X : Type} (p q : X -> bool) (l : list X) :
+  filter p (filter q l) = filter (fun e => q e && p e) l.
+Proof.
+  induction l as [|y r IH]; simpl; [reflexivity|].
+  destruct (q y); simpl; [destruct (p y); rewrite IH; reflexivity|exact IH].
+Qed.
+
+Lemma filter_ext_in {X : Type} (p q : X -> bool) (l : list X) :
+  (forall e, In e l -> p e = q e) -> filter p l = filter q l.
+Proof.
+  induction l as [|y r IH]; intros H; simpl; [reflexivity|].
+  rewrite (H y (or_introl eq_refl)), IH; [reflexivity|]. intros e He. apply H. right. exact He.
+Qed.
